@@ -127,3 +127,15 @@ package base
 //@ func (Node).Address
 //@   pure
 //@   ensures r0 != nil
+
+// well-formed ballots (A9): the accessors of a ballot that passed IsValid
+// return non-nil parts
+//@ func (Ballot).SignFact
+//@   pure
+//@   ensures r0 != nil
+//@ func (BallotSignFact).Node
+//@   pure
+//@   ensures r0 != nil
+//@ func (SignFact).Fact
+//@   pure
+//@   ensures r0 != nil
